@@ -90,6 +90,8 @@ def run_shard(spec, acc):
         dec = NMEA2000Decoder(**kwargs)
         ident = {}                    # src -> NAME
         frames_ok = {}                # (src, msg_no) -> all frames so far accepted
+        open_seq = {}                 # stream -> sequence counter of an unfinished message the decoder may still hold
+        msg_state = {}
         returned_with_identity = withheld = changed = 0
         bad = None
         for pos, ev in enumerate(events):
@@ -135,6 +137,34 @@ def run_shard(spec, acc):
             key = (ev.src, ev.msg_no)
             st = frames_ok.get(key, (True, True))
             frames_ok[key] = (st[0] and allowed, st[1] and judged)
+            if ev.tag == "fast":
+                # The manufacturer lists act on frames, before reassembly. A message of which only some frames passed
+                # stays behind unfinished; when the sender's 3-bit sequence counter comes round to the same value
+                # while the messages in between were withheld, the decoder sees two consecutive messages with one
+                # counter - the case the standard excludes (C04's quantifier) - and may combine their frames. Every
+                # frame of such a combination passed the lists, so nothing leaks; what is returned when is not judged.
+                skey = (ev.pgn, ev.src, ev.dst)
+                seq = ev.data[0] >> 5
+                if key not in msg_state:
+                    msg_state[key] = {"tainted": open_seq.get(skey) == seq or not judged and skey in open_seq, "first_passed": False, "dropped": False}
+                ms = msg_state[key]
+                passed = allowed or not judged
+                if (ev.data[0] & 0x1F) == 0 and passed and not ms["tainted"]:
+                    ms["first_passed"] = True
+                    open_seq[skey] = seq            # the decoder starts over with this counter
+                if not passed:
+                    ms["dropped"] = True
+                if ev.last:
+                    if ms["first_passed"] and not ms["dropped"] and not ms["tainted"]:
+                        open_seq.pop(skey, None)      # complete: nothing stays behind
+                    if ms["tainted"]:
+                        frames_ok.pop(key, None)
+                        acc.count("messages_not_judged_same_counter_after_withheld_gap")
+                        msg_state.pop(key)
+                        continue
+                    msg_state.pop(key)
+                elif ms["tainted"]:
+                    continue
             if not ev.last:
                 if r is not None:
                     bad = (pos, "message-before-last-frame", None)
@@ -169,7 +199,9 @@ def run_shard(spec, acc):
         if bad:
             pos, why, detail = bad
             acc.violation(why, f"config {kwargs}: position {pos}: {why} {detail!r}"[:600],
-                          {"config": repr(kwargs), "position": pos, "detail": repr(detail), "events": [e.brief() for e in events[:pos + 1]][-40:]})
+                          {"config": repr(kwargs), "position": pos, "detail": repr(detail), "events": [e.brief() for e in events[:pos + 1]][-40:],
+                           "same_source_before": [[i] + list(e.brief()) for i, e in enumerate(events[:pos + 1])
+                                                  if e.src == events[pos].src and (e.tag == "claim" or (e.pgn, e.dst) == (events[pos].pgn, events[pos].dst))][-60:]})
         if c % 13 == 0:
             acc.sample({"config": repr(kwargs), "events": len(events), "with_identity": returned_with_identity, "withheld": withheld, "reclaims": changed})
 
